@@ -196,10 +196,11 @@ var propSpecs = []propSpec{
 	{
 		id: "C16",
 		runs: []runSpec{
+			{dir: "mux", entry: "ZZC08Rec", quick: []int{2}, thorough: []int{3}},
 			{dir: "mux", entry: "ZZC16", quick: []int{11, 111, 211, 311, 411, 20, 120, 220, 320}, thorough: []int{12, 112, 212, 312, 412, 21, 121, 221, 321, 421, 30, 230}},
 		},
 		covers:  []string{"normal-request", "panic-contained", "panic-passes-through"},
-		bounds:  "Router and Group (router created by Group.New) with WithRecovery, without it, and Router with WithStatusRecovery; one request with a symbolic parameter value of <= 1 byte and every sequence of 2 requests with an empty one, each request of 7 kinds (route handler behind Use and route middlewares, HEAD, OPTIONS, 405, 404, TRACE, group not-found), panicking or not, with a symbolic panic value (any int64, any string of <= 2 bytes) or http.ErrAbortHandler",
+		bounds:  "Router and Group (router created by Group.New with an extra per-router option) with WithRecovery, without it, and Router with WithStatusRecovery; one request with a symbolic parameter value of <= 1 byte and every sequence of 2 requests with an empty one, each request of 7 kinds (route handler behind Use and route middlewares, HEAD, OPTIONS, 405, 404, TRACE, group not-found), panicking or not, with a symbolic panic value (any int64, any string of <= 2 bytes) or http.ErrAbortHandler",
 		boundsT: "1 request with values <= 2 bytes, 2 requests with values <= 1 byte, 3 requests with empty values",
 		outside: "panics raised by the RecoverFunc itself or by matchers; routers added to a group with Group.Add; the other bundled recovery options (they differ only in logging, which is stubbed)",
 		stubs:   append(append([]string{}, stdStubs...), "net/http.Error: its documented effect on the writer; logging and stack dumps: empty bodies"),
@@ -266,7 +267,7 @@ var propSpecs = []propSpec{
 		},
 		covers:  []string{"foreign-activity", "pooled-request-served", "nested-request", "after-a-wide-request", "par-two-routers", "par-router-and-hosts", "par-build-and-serve", "par-shared-options", "par-requests"},
 		race:    true,
-		bounds:  "sequential: a brand-new router (with/without WithTrace) is observed (OPTIONS * Allow, a 404, Routes(), Allow after one registration) before and after (and against the documented answers after) every sequence of <= 2 operations from 10 on other routers, a Hosts matcher and a Group; pooled contexts: two consecutive requests with symbolic paths <= 5 bytes on the backtracking table, optionally after a Group served (its own release path), and a handler that serves a nested request while its own is in flight; a request that captures 30-32 parameters (around the pool's release threshold) followed by an ordinary one; the engine also reports a pooled object that is released twice; concurrent (logical threads + happens-before monitor over every heap access): two routers registering/removing in parallel, a router and a Hosts matcher, one router being built and cleaned while another serves, a router built from the same Option values as one that is serving, two parallel requests with symbolic parameter values on one quiescent router with and without WithLock",
+		bounds:  "sequential: a brand-new router (with/without WithTrace) is observed (OPTIONS * Allow, a 404, Routes(), Allow after one registration) before and after (and against the documented answers after) every sequence of <= 2 operations from 10 on other routers, a Hosts matcher and a Group; pooled contexts: two consecutive requests with symbolic paths <= 5 bytes on the backtracking table, optionally after a Group served (its own release path), and a handler that serves a nested request while its own is in flight; a request that captures 30-32 parameters (around the pool's release threshold) followed by an ordinary one; a HEAD request after a HEAD whose handler panicked and was recovered (objects pooled per request must not carry anything over); the engine also reports a pooled object that is released twice; concurrent (logical threads + happens-before monitor over every heap access): two routers registering/removing in parallel, a router and a Hosts matcher, one router being built and cleaned while another serves, a router built from the same Option values as one that is serving, two parallel requests with symbolic parameter values on one quiescent router with and without WithLock",
 		boundsT: "foreign sequences of <= 3 operations, pooled paths <= 8 bytes",
 		outside: "more than two concurrent requests; Groups used concurrently; weak-memory effects beyond the Go memory model's race definition",
 		assume:  []string{"sync.Pool hands a released context to the next request (single-goroutine runtime behaviour between GCs)"},
